@@ -2,7 +2,9 @@
 C02 for MDCPDP (row stepped on its own, well-formed hand-supplied instance — one capacity entry per
 depot, capacity of depot 0 at least 1): (1) every reachable state offers an action — finished states
 keep node 0 open; (2) `done` is absorbing; (3) every mask-confined episode is finished after at most
-`N + K − 1` steps (every node once, plus one return for every vehicle but the last).
+`N + K − 1` steps (every node once, plus one return for every vehicle but the last); (4) it is finished
+EXACTLY when it has `N + K − 1` steps (`done_iff_length`), so all rows of a batch finish at the same
+step (`equal_length`) and the bundled decoding loops never pad an MDCPDP row.
 -/
 import Rl4co.Proofs.Mdcpdp
 
@@ -182,7 +184,7 @@ theorem mu_decreases (i : Inst) (hwf : WF i) (s : State) (a : Nat) (hi : Inv i s
       apply Classical.byContradiction; intro hnk
       have := (mask_customer hwf hi (by omega : i.K ≤ a) hm').1
       rw [hav'] at this; cases this
-    have hb : backFlag i s a = true := by simp [backFlag, haK, hav']
+    have hb : backFlag i s a = true := by simp [backFlag_eq, haK, hav']
     have ha0 := back_is_zero hwf hi hm' hb
     subst ha0
     have hnh : isHome i s = false := by simp [isHome, hm']
@@ -261,5 +263,213 @@ example : RunND env exInst (env.reset exInst) [0, 2, 3, 0, 1]
   refine RunND.cons (by decide) (by decide) (by decide) ?_
   exact RunND.nil _
 example : env.done exInst (exec env exInst (env.reset exInst) [0, 2, 3, 0, 1]) = true := by decide
+
+/-! ### equal length -/
+
+/-- after a step that is not a return, the row is not in the "just returned" situation -/
+theorem isHome_step_of_not_back (i : Inst) (hwf : WF i) {s : State} (hi : Inv i s) {a : Nat}
+    (ha : a < i.N) (hm : s.mask a = true) (hb : backFlag i s a = false) :
+    isHome i (step i s a) = false := by
+  have hk := hwf.kpos
+  have hev := hwf.even
+  have hi' := inv_step hwf hi ha hm
+  obtain ⟨b, hb1, hb2⟩ := mask_nonempty_of_inv i hwf hi'
+  have hdep : (step i s a).depot = 0 := hi'.dep0
+  cases hh : isHome i (step i s a) with
+  | false => rfl
+  | true =>
+    exfalso
+    simp only [isHome, Bool.and_eq_true, Bool.not_eq_true'] at hh
+    by_cases hbK : b < i.K
+    · by_cases hb0 : b = 0
+      · subst hb0; rw [hh.1] at hb2; cases hb2
+      · rw [step_mask, hdep] at hb2
+        simp [maskOf, hbK, hb0, hb] at hb2
+    · have := anyIn_eq_false.mp hh.2 (b - i.K) (by omega)
+      have e : i.K + (b - i.K) = b := by omega
+      simp only [e] at this
+      rw [hb2] at this; cases this
+
+/-- a depot other than node 0 is only offered in the "just returned" situation -/
+theorem home_of_depot_mask (i : Inst) (hwf : WF i) {s : State} (hi : Inv i s) (hd : s.done = false)
+    {j : Nat} (hj : j < i.K) (hj0 : j ≠ 0) (hm : s.mask j = true) : isHome i s = true := by
+  have hk := hwf.kpos
+  rcases hi.phase with ⟨hmk, _⟩ | ⟨b, hmk, _, _⟩
+  · rw [hmk] at hm; simp [hj0] at hm
+  · have hb : b = true := by
+      rw [hmk] at hm
+      simp only [maskOf, capFlagOf_eq, carryFlagOf_eq, lastDepotOf_eq, hj, if_true, hj0, if_false, Bool.and_eq_true] at hm
+      exact hm.1.1.2
+    subst hb
+    simp only [isHome, Bool.and_eq_true, Bool.not_eq_true']
+    refine ⟨?_, ?_⟩
+    · rw [hmk]; simp [maskOf, (by omega : 0 < i.K), hd]
+    · apply anyIn_eq_false.mpr
+      intro k _
+      rw [hmk]
+      have : ¬ (i.K + k < i.K) := by omega
+      simp [maskOf, this]
+
+/-- after the first step, every admitted step from an unfinished state lowers the measure by exactly 1 -/
+theorem mu_step_eq (i : Inst) (hwf : WF i) (s : State) (a : Nat) (hi : Inv i s) (h0 : s.avail 0 = false)
+    (hd : s.done = false) (ha : a < i.N) (hm : s.mask a = true) :
+    mu i (step i s a) + 1 = mu i s := by
+  have hev := hwf.even
+  have hk := hwf.kpos
+  have hKN : i.K ≤ i.N := by omega
+  have hlt := mu_decreases i hwf s a hi hd ha hm
+  have hlt' : mu i (step i s a) < mu i s := hlt
+  by_cases hav : s.avail a = true
+  · have hb : backFlag i s a = false := by simp [backFlag_eq, hav]
+    have hnh' := isHome_step_of_not_back i hwf hi ha hm hb
+    have h1 := cnt_step_avail i.N s.avail a ha hav
+    have ha0 : a ≠ 0 := by intro h; subst h; rw [h0] at hav; cases hav
+    by_cases hh : isHome i s = true
+    · have haK : a < i.K := by
+        simp only [isHome, Bool.and_eq_true, Bool.not_eq_true'] at hh
+        apply Classical.byContradiction; intro hnk
+        have := anyIn_eq_false.mp hh.2 (a - i.K) (by omega)
+        have e : i.K + (a - i.K) = a := by omega
+        simp only [e] at this
+        rw [hm] at this; cases this
+      have h4 := cnt_step_avail i.K s.avail a haK hav
+      simp only [mu, step_avail, hnh', hh, if_true, Bool.false_eq_true, if_false] at hlt' ⊢
+      omega
+    · have hh' : isHome i s = false := by simpa using hh
+      have haK : ¬ a < i.K := by
+        intro haK
+        have := home_of_depot_mask i hwf hi hd haK ha0 hm
+        rw [hh'] at this; cases this
+      have h4 := cnt_step_other i.K s.avail a (by omega)
+      simp only [mu, step_avail, hnh', hh', Bool.false_eq_true, if_false, h4] at hlt' ⊢
+      omega
+  · have hav' : s.avail a = false := by simpa using hav
+    have haK : a < i.K := by
+      apply Classical.byContradiction; intro hnk
+      have := (mask_customer hwf hi (by omega : i.K ≤ a) hm).1
+      rw [hav'] at this; cases this
+    have hb : backFlag i s a = true := by simp [backFlag_eq, haK, hav']
+    have ha0 := back_is_zero hwf hi hm hb
+    subst ha0
+    have hnh : isHome i s = false := by simp [isHome, hm]
+    have hsame : upd s.avail 0 false = s.avail := by
+      funext j; simp only [upd_apply]; split
+      · subst_vars; exact hav'.symm
+      · rfl
+    have hle : mu i (step i s 0) ≤ cnt i.N s.avail + cnt i.K s.avail := by
+      simp only [mu, step_avail, hsame]; omega
+    simp only [mu, hnh, Bool.false_eq_true, if_false] at hlt' ⊢
+    simp only [mu, step_avail, hsame] at hlt' hle ⊢
+    split at hlt' <;> split <;> omega
+
+theorem len_mu_of_run (i : Inst) (hwf : WF i) {s s' : State} {as : List Nat}
+    (h : RunND env i s as s') (hi : Inv i s) (h0 : s.avail 0 = false) :
+    as.length + mu i s' = mu i s := by
+  induction h with
+  | nil s => simp
+  | @cons s s' a as hd ha hm _ ih =>
+    have ha' : a < i.N := ha
+    have hm' : s.mask a = true := hm
+    have hi' := inv_step hwf hi ha' hm'
+    have h0' : (step i s a).avail 0 = false := by
+      rw [step_avail, upd_apply]; split
+      · rfl
+      · exact h0
+    have := ih hi' h0'
+    have e := mu_step_eq i hwf s a hi h0 hd ha' hm'
+    have e2 : env.step i s a = step i s a := rfl
+    rw [e2] at this
+    simp only [List.length_cons]; omega
+
+theorem inv_of_run_nd (i : Inst) (hwf : WF i) {s s' : State} {as : List Nat}
+    (h : RunND env i s as s') (hi : Inv i s) : Inv i s' := by
+  induction h with
+  | nil s => exact hi
+  | cons _ ha hm _ ih => exact ih (inv_step hwf hi ha hm)
+
+theorem mu_eq_zero_iff (i : Inst) (hwf : WF i) {s : State} (hi : Inv i s) :
+    mu i s = 0 ↔ s.done = true := by
+  have hev := hwf.even
+  have hk := hwf.kpos
+  constructor
+  · intro h
+    cases hd : s.done with
+    | true => rfl
+    | false =>
+      exfalso
+      have hany : anyIn i.N s.avail = true := by
+        have := hi.doneEq; rw [hd] at this; simpa using this.symm
+      obtain ⟨j, hj, hjav⟩ := anyIn_eq_true.mp hany
+      have hN : 1 ≤ cnt i.N s.avail := cnt_pos.mpr ⟨j, hj, hjav⟩
+      have hKle : cnt i.K s.avail ≤ cnt i.N s.avail := cnt_le_of_le _ _ _ (by omega)
+      by_cases hh : isHome i s = true
+      · -- just returned and unfinished: an unvisited depot is offered
+        obtain ⟨b, hb1, hb2⟩ := mask_nonempty_of_inv i hwf hi
+        simp only [isHome, Bool.and_eq_true, Bool.not_eq_true'] at hh
+        have hbK : b < i.K := by
+          apply Classical.byContradiction; intro hnk
+          have := anyIn_eq_false.mp hh.2 (b - i.K) (by omega)
+          have e : i.K + (b - i.K) = b := by omega
+          simp only [e] at this
+          rw [hb2] at this; cases this
+        have hb0 : b ≠ 0 := by intro hh0; subst hh0; rw [hh.1] at hb2; cases hb2
+        have : 1 ≤ cnt i.K s.avail := cnt_pos.mpr ⟨b, hbK, mask_depot_ne hwf hi hbK hb0 hb2⟩
+        have hh2 : isHome i s = true := by simp [isHome, hh.1, hh.2]
+        simp only [mu, hh2, if_true] at h
+        omega
+      · have hh' : isHome i s = false := by simpa using hh
+        simp only [mu, hh', Bool.false_eq_true, if_false] at h
+        omega
+  · intro hd
+    have hall := avail_of_done hi hd
+    have h1 : cnt i.N s.avail = 0 := cnt_eq_zero.mpr hall
+    have h2 : cnt i.K s.avail = 0 := cnt_eq_zero.mpr (fun j hj => hall j (by omega))
+    simp [mu, h1, h2]
+
+/-- **Equal length.**  A mask-confined run that never steps a finished state is finished exactly when
+it has `N + K − 1` steps: every node once plus one return for every vehicle but the last. -/
+theorem done_iff_length (i : Inst) (hwf : WF i) {as : List Nat} {s : State}
+    (h : RunND env i (env.reset i) as s) : env.done i s = true ↔ as.length = i.N + i.K - 1 := by
+  have hev := hwf.even
+  have hk := hwf.kpos
+  cases h with
+  | nil _ =>
+    simp only [List.length_nil]
+    constructor
+    · intro h; simp [env, reset] at h
+    · intro h; omega
+  | @cons _ _ a as hd ha hm hrest =>
+    have hm' : (reset i).mask a = true := hm
+    have ha0 : a = 0 := by simpa [reset] using hm'
+    subst ha0
+    have hi1 := inv_step hwf (inv_reset i hwf) (by omega : 0 < i.N) hm'
+    have h0 : (step i (reset i) 0).avail 0 = false := by simp [step_avail]
+    have e2 : env.step i (env.reset i) 0 = step i (reset i) 0 := rfl
+    rw [e2] at hrest
+    have hlen := len_mu_of_run i hwf hrest hi1 h0
+    have his := inv_of_run_nd i hwf hrest hi1
+    have hmu1 : mu i (step i (reset i) 0) = i.N + i.K - 2 := by
+      have hb : backFlag i (reset i) 0 = false := by simp [backFlag_eq, reset]
+      have hnh := isHome_step_of_not_back i hwf (inv_reset i hwf) (by omega : 0 < i.N) hm' hb
+      have h1 := cnt_step_avail i.N (reset i).avail 0 (by omega) rfl
+      have h2 := cnt_step_avail i.K (reset i).avail 0 (by omega) rfl
+      have h3 : cnt i.N (reset i).avail = i.N := cnt_eq_n.mpr (fun _ _ => rfl)
+      have h4 : cnt i.K (reset i).avail = i.K := cnt_eq_n.mpr (fun _ _ => rfl)
+      simp only [mu, step_avail, hnh, Bool.false_eq_true, if_false]
+      omega
+    have hz := mu_eq_zero_iff i hwf his
+    show s.done = true ↔ _
+    rw [← hz]
+    simp only [List.length_cons]
+    omega
+
+/-- all rows of a batch with the same numbers of nodes and depots finish at the same step -/
+theorem equal_length (i j : Inst) (hi : WF i) (hj : WF j) (hN : i.N = j.N) (hK : i.K = j.K)
+    {as bs : List Nat} {s t : State} (h1 : RunND env i (env.reset i) as s) (h2 : RunND env j (env.reset j) bs t)
+    (hd1 : env.done i s = true) (hd2 : env.done j t = true) : as.length = bs.length := by
+  rw [(done_iff_length i hi h1).mp hd1, (done_iff_length j hj h2).mp hd2, hN, hK]
+
+/-- Non-vacuity of `done_iff_length`: the run `[0,2,3,0,1]` of `exInst` above has exactly `N + K − 1 = 5` steps. -/
+example : [0, 2, 3, 0, 1].length = exInst.N + exInst.K - 1 := by decide
 
 end Rl4co.Mdcpdp
